@@ -226,13 +226,31 @@ func (c *ctxT) verifyHistory(cs Case, sc *scenario, child *types.WorkObject, ok0
 	if cs.Dev == "" || cs.Dev[0] == '=' {
 		who = "valid"
 	}
+	// node-local state no value and no verdict may depend on: the chain of the history becomes a side chain (the
+	// canonical number index names decoy blocks at the heights of the child, the parent and its ancestors) and the node's
+	// own expansion number moves (a tree expansion); the cold reference chain keeps neither
+	sc.ch.sideChain(ps.Time, ps.Diff, ps.numBig().Uint64())
+	sc.ch.hc.SetCurrentExpansionNumber(ps.Expansion + 1 + uint8(cs.ID%3))
+	sc.ch.hc.VerifC09PurgeCaches()
+	if okv, pan := verify(sc, child, e.Now); pan || okv != ok0 {
+		c.rep.Fail("verifyHeader:verdict-depends-on-node-state:"+who, fmt.Sprintf("verifyHeader(child, parent) was %v and is %v (panic %v) once the canonical number index names other blocks at the heights around the parent (the parent on a side chain) and the node's own expansion number differs from the block's", ok0, okv, pan), cs)
+		return
+	}
+	for _, fn := range histFns {
+		if got, _ := callFn(sc.ch, fn, sc.p); !got.eq(refv[fn]) {
+			c.rep.Fail("hist:depends-on-node-state:"+fn, fmt.Sprintf("%s(parent) = %s on a node whose canonical index / expansion number differ, %s on the reference node", fn, got, refv[fn]), cs)
+			return
+		}
+	}
 	n := 8 + r.Intn(6)
 	for i := 0; i < n; i++ {
-		k := r.Pick(9, 3, 3, 1, 1)
+		k := r.Pick(9, 3, 3, 1, 1, 2)
 		if k == 2 && valid == nil {
 			k = 1
 		}
 		switch k {
+		case 5:
+			sc.ch.hc.SetCurrentExpansionNumber(nodeExpansion(r.Next()))
 		case 0:
 			fn := histFns[r.Pick(2, 3, 4, 2, 1, 1)]
 			got, ptr := callFn(sc.ch, fn, sc.p)
@@ -402,7 +420,12 @@ func (c *ctxT) runHist(cs Case) string {
 	}
 	failed := false
 	hits := 0
-	for _, o := range cs.Ops {
+	for k, o := range cs.Ops {
+		if (cs.ID+uint64(k))%4 == 0 {
+			// a tree expansion in the middle of the history: the node's own expansion number moves; invisible to the model
+			// (it has no such state) and to the cold reference
+			ch.hc.SetCurrentExpansionNumber(nodeExpansion(cs.ID + uint64(k) + 1))
+		}
 		switch o.K {
 		case "evict":
 			ch.hc.VerifC09EvictCalcOrder(wos[o.I].Hash())
